@@ -111,6 +111,8 @@ func c18Configs(tier string) []c18Cfg {
 	}
 	out = append(out, c18Cfg{Kind: "direct", Strategy: "drop", Threads: "E", Sink: "panic"}, c18Cfg{Kind: "direct", Strategy: "drop", Threads: "PE", Sink: "panic"}, c18Cfg{Kind: "analytic", Strategy: "block", Threads: "PE", Sink: "panic"},
 		c18Cfg{Kind: "direct", Strategy: "drop", Threads: "P", Sink: "panic-async"}, c18Cfg{Kind: "counting", Strategy: "drop", Threads: "P", Sink: "panic-async"}, c18Cfg{Kind: "direct", Strategy: "drop", Threads: "PS", Sink: "panic-async"}, c18Cfg{Kind: "tumbling-evt", Strategy: "drop", Threads: "PS", Sink: "panic-async"})
+	out = append(out, c18Cfg{Kind: "direct", Strategy: "drop", Threads: "P", Sink: "panic-then-plain"}, c18Cfg{Kind: "direct", Strategy: "drop", Threads: "PE", Sink: "panic-then-plain"},
+		c18Cfg{Kind: "counting", Strategy: "drop", Threads: "P", Sink: "panic-then-plain"}, c18Cfg{Kind: "tumbling-evt", Strategy: "drop", Threads: "PS", Sink: "panic-then-plain"})
 	// a producer parked inside Emit on a full input channel (the sink holds the pipeline until Stop has returned)
 	// must be released by Stop, under every strategy
 	for _, st := range []string{"block", "drop", "expand"} {
@@ -158,6 +160,7 @@ type c18Obs struct {
 	syncResults    int
 	inSink            int
 	sinkRunningAtStop int
+	secondSinkCalls   int
 }
 
 func c18Run(cfg c18Cfg) explore.RunFunc {
@@ -239,6 +242,19 @@ func c18Run(cfg c18Cfg) explore.RunFunc {
 						panic("async sink panics on its first batch")
 					}
 					o.deliveredAfterPanic = true
+				})
+			} else if cfg.Sink == "panic-then-plain" {
+				// two synchronous sinks: the first panics on every batch, the second is well-behaved
+				s.AddSyncSink(func(rows []map[string]any) {
+					o.sinkCalls++
+					o.panicked = true
+					panic("first sync sink panics on every batch")
+				})
+				s.AddSyncSink(func(rows []map[string]any) {
+					o.secondSinkCalls++
+					if stopReturned {
+						o.sinkAfterStop++
+					}
 				})
 			} else {
 				s.AddSyncSink(sink)
@@ -356,6 +372,12 @@ func c18Oracle(cfg c18Cfg, res *sched.Result, o *c18Obs) *explore.Failure {
 		want := 2*strings.Count(cfg.Threads, "P") + strings.Count(cfg.Threads, "E")
 		if o.sinkCalls < want {
 			return fail("rows-after-sink-panic-not-delivered", fmt.Sprintf("the sink panicked on its first batch and was invoked %d time(s) in all; %d rows were offered and every one forms its own batch", o.sinkCalls, want))
+		}
+	}
+	if cfg.Sink == "panic-then-plain" && !strings.Contains(cfg.Threads, "S") {
+		want := 2*strings.Count(cfg.Threads, "P") + strings.Count(cfg.Threads, "E")
+		if o.secondSinkCalls < want {
+			return fail("sink-after-panicking-sink-not-invoked", fmt.Sprintf("the first synchronous sink panics on every batch; the second synchronous sink was invoked %d time(s), %d rows were offered and every one forms its own batch (the first sink was invoked %d time(s))", o.secondSinkCalls, want, o.sinkCalls))
 		}
 	}
 	if cfg.RowPanic && !strings.Contains(cfg.Threads, "S") {
